@@ -238,6 +238,9 @@ def main(argv=None):
         log("HARNESS-ERROR: no harness registered for", prop)
         return EXIT_HARNESS
 
+    # replays of earlier runs of this property are stale once it is checked again
+    if not args.only and not args.cube:
+        shutil.rmtree(os.path.join(ROOT, "replays", prop), ignore_errors=True)
     violations = []  # (harness, args, replay result)
     harness_errors = []
     inconclusive = []
